@@ -14,13 +14,16 @@ def describe(e):
                                                                        e["ka"], e["B"]["t"], e["kb"], e.get("how"), e["out"])
 
 
-def production(ctx, quick, rnd):
-    """Production curves: the specification (scalar algebra mod n) predicts which results are EQUAL; each product is
-    computed along independent paths of the library and the predicted equalities / n*P = infinity / on-curve are required."""
+def prod_worker(args):
+    """One production curve: structured scalars along independent multiplication paths.  Returns (products, violations, keys)."""
+    ci, quick, seed = args
     ecdsa = core.import_ecdsa()
     from ecdsa import curves, ellipticcurve as ec
+    rnd = random.Random(seed * 1000 + ci)
     cnt = 0
-    for c in list(curves.curves)[:17]:
+    viol, nontrivial = [], []
+    c = list(curves.curves)[ci]
+    if True:
         n, p = c.order, c.curve.p()
         G = c.generator
         cfp = c.curve
@@ -57,14 +60,14 @@ def production(ctx, quick, rnd):
                 else:
                     vals[name] = (int(R.x()), int(R.y()))
                     if not (0 <= vals[name][0] < p and 0 <= vals[name][1] < p and cfp.contains_point(*vals[name])):
-                        ctx.violation("%s: %d*G via %s is not a canonical point on the curve: %s" % (c.name, k, name, vals[name]),
-                                      {"curve": c.name, "k": k, "path": name})
+                        viol.append(("%s: %d*G via %s is not a canonical point on the curve: %s" % (c.name, k, name, vals[name]),
+                                     {"curve": c.name, "k": k, "path": name}))
             if len(set(vals.values())) != 1:
-                ctx.violation("%s: %d*G differs between multiplication paths: %s" % (c.name, k, core.compact(vals)),
-                              {"curve": c.name, "k": k, "results": core.compact(vals)})
+                viol.append(("%s: %d*G differs between multiplication paths: %s" % (c.name, k, core.compact(vals)),
+                             {"curve": c.name, "k": k, "results": core.compact(vals)}))
             if (k % n == 0) != (vals["table"] is None):
-                ctx.violation("%s: %d*G identity status wrong" % (c.name, k), {"curve": c.name, "k": k})
-            ctx.nontrivial.add((c.name, k))
+                viol.append(("%s: %d*G identity status wrong" % (c.name, k), {"curve": c.name, "k": k}))
+            nontrivial.append((c.name, k))
         # scalar algebra: (a+b)G = aG + bG, a(bG) = (ab)G, mul_add with Q = 5G
         for _ in range(3 if quick else 12):
             a_, b_ = rnd.randrange(-n, 3 * n), rnd.randrange(-n, 3 * n)
@@ -74,7 +77,63 @@ def production(ctx, quick, rnd):
             r2 = Q5.mul_add(b_, G, a_)
             r3 = (G * a_) + (Q5 * b_)
             if not (lhs == r1 and lhs == r2 and lhs == r3):
-                ctx.violation("%s: aG + bQ disagree for a=%d b=%d Q=5G" % (c.name, a_, b_), {"curve": c.name, "a": a_, "b": b_})
+                viol.append(("%s: aG + bQ disagree for a=%d b=%d Q=5G" % (c.name, a_, b_), {"curve": c.name, "a": a_, "b": b_}))
+    return cnt, viol, nontrivial
+
+
+def sweep_worker(args):
+    """Every bit length j of the multiplier: 2^j - 1 (all ones), 3 * 2^(j-2) (top bits 11), 11 * 2^(j-4) (top bits 1011) through
+    the signed-digit TABLE loop, the NAF loop and mul_add; the results must be the same point.  A recoding that goes wrong only
+    when a carry leaves a digit group of some fixed width shows at exactly those lengths."""
+    ci, js = args
+    core.import_ecdsa()
+    from ecdsa import curves, ellipticcurve as ec
+    c = list(curves.curves)[ci]
+    n, p = c.order, c.curve.p()
+    G = c.generator
+    gx, gy = G.x(), G.y()
+    plain = ec.PointJacobi(c.curve, gx, gy, 1, n)
+    cnt = 0
+    viol = []
+    for j in js:
+        for name, k in (("2^%d-1" % j, (1 << j) - 1), ("3*2^%d" % (j - 2), 3 << (j - 2) if j >= 2 else 3),
+                        ("11*2^%d" % (j - 4), 11 << (j - 4) if j >= 4 else 11)):
+            if k >= 2 * n:
+                continue
+            cnt += 3
+            T = G * k
+            N = plain * k
+            M = plain.mul_add(k, G, 0) if j % 2 else G.mul_add(1, plain, k - 1)
+            vals = [None if R == ec.INFINITY else (int(R.x()), int(R.y())) for R in (T, N, M)]
+            if len(set(vals)) != 1:
+                viol.append(("%s: (%s)*G differs between the table loop, the NAF loop and mul_add: %s" % (c.name, name, core.compact(vals)),
+                             {"curve": c.name, "k": k, "results": core.compact(vals)}))
+    return cnt, viol, []
+
+
+def production(ctx, quick, rnd):
+    """Production curves: the specification (scalar algebra mod n) predicts which results are EQUAL; each product is
+    computed along independent paths of the library and the predicted equalities / n*P = infinity / on-curve are required."""
+    ecdsa = core.import_ecdsa()
+    from ecdsa import curves
+    cl = list(curves.curves)[:17]
+    jobs = [(prod_worker, (ci, quick, ctx.seed)) for ci in range(len(cl))]
+    for ci, c in enumerate(cl):
+        b = c.order.bit_length()
+        js = list(range(2, b + 2))
+        nchunk = max(1, b // 64)
+        for ch in range(nchunk):
+            jobs.append((sweep_worker, (ci, js[ch::nchunk])))
+    cnt = 0
+    with cf.ProcessPoolExecutor(max_workers=core.NCPU) as ex:
+        futs = [ex.submit(f, a) for f, a in jobs]
+        for fu in futs:
+            n_, viol, nt = fu.result()
+            cnt += n_
+            for what, rep in viol:
+                ctx.violation(what, rep)
+            for x in nt:
+                ctx.nontrivial.add(x)
     ctx.evaluations += cnt
     ctx.extra["production_products"] = cnt
 
@@ -145,7 +204,8 @@ def run(ctx):
     ctx.rule = ("toy curves %s: k*P and P*k for k in [-3, 2n+3] + {3n, 4n+-1, -n, -2n-1, 4095, 4097} through plain / rescaled / "
                 "order-declared / generator (lazy table, fresh and warmed) / legacy objects, and mul_add(a, Q, b) for Q in {P, -P, 2P, "
                 "identity, other} x Q representation; TLC recomputes k-fold sums with CurveP.tla; production: 17 curves x structured "
-                "scalars, 7 independent multiplication paths must agree, n*P = infinity, on-curve, scalar algebra identities; "
+                "scalars, 10 independent multiplication paths must agree, n*P = infinity, on-curve, scalar algebra identities; multipliers "
+                "2^j - 1, 3 * 2^(j-2), 11 * 2^(j-4) for EVERY bit length j up to the order's through table loop / NAF loop / mul_add; "
                 "the identity as handed out by the library (n*P, P+(-P), 0*P) times scalars of either sign; mul_add with multipliers of opposite "
                 "sign and different size; non-trivial = distinct (curve, operand triples, scalars)" % plan)
     ctx.exhaustive = False
